@@ -2,6 +2,10 @@ import AvoVerif.Props.C10
 import AvoVerif.Props.C10Tables
 import AvoVerif.Props.C10Sim
 import AvoVerif.Props.C10SelfMove
+import AvoVerif.Props.C10Accept
+import AvoVerif.Props.C10Compose
+import AvoVerif.Props.C10Pruned
+import AvoVerif.Props.C10General
 #print axioms Avo.Cleanup.prune_selfmov_ok
 #print axioms Avo.Cleanup.selfMove_kind
 #print axioms Avo.Cleanup.movl_self_has_effect
@@ -30,3 +34,28 @@ import AvoVerif.Props.C10SelfMove
 #print axioms Avo.Cleanup.after_pruneSelfMoves
 #print axioms Avo.Cleanup.after_keepHead
 #print axioms Avo.Cleanup.hself_of_execMov
+#print axioms Avo.Cleanup.walk_sound
+#print axioms Avo.Cleanup.isNoopMove_spec
+#print axioms Avo.Cleanup.checkDeleted_none
+#print axioms Avo.Cleanup.Pruned.sublist
+#print axioms Avo.Cleanup.Pruned.instrs_kept
+#print axioms Avo.Cleanup.selfMove_not_cf
+#print axioms Avo.Cleanup.pruneLabels_step_instr
+#print axioms Avo.Cleanup.pruneLabels_run
+#print axioms Avo.Cleanup.pruneLabels_step_none
+#print axioms Avo.Cleanup.pruneJumps_halts
+#print axioms Avo.Cleanup.pruneLabels_halts
+#print axioms Avo.Cleanup.pruneSelfMoves_haltsWith
+#print axioms Avo.Cleanup.HaltsWith_congr
+#print axioms Avo.Cleanup.cleanup_halts_partial
+#print axioms Avo.Cleanup.pruneJumps_pruned
+#print axioms Avo.Cleanup.pruneLabels_pruned
+#print axioms Avo.Cleanup.pruneSelfMoves_pruned
+#print axioms Avo.Cleanup.pruneLabels_not_pruned_call
+#print axioms Avo.Cleanup.after_pruned
+#print axioms Avo.Cleanup.lead_pruned
+#print axioms Avo.Cleanup.pruned_step
+#print axioms Avo.Cleanup.pruned_run
+#print axioms Avo.Cleanup.pruned_halt
+#print axioms Avo.Cleanup.pruned_halts_partial
+#print axioms Avo.Cleanup.accepted_halts_partial
